@@ -14,8 +14,16 @@ import (
 const f1 = "mysql-bin.000001"
 
 func base(name, hist, pacing string) e1.Scenario {
-	return e1.Scenario{Name: name, Hist: hist, StartFile: f1, StartPos: 4, ServerID: 1234, Pacing: pacing,
+	return e1.Scenario{Name: name, Hist: hist, StartFile: firstFile(hist), StartPos: 4, ServerID: 1234, Pacing: pacing,
 		MapperFailAt: -1, MapperMismatchAt: -1}
+}
+
+// firstFile is where a scenario starts: the first file of its history.
+func firstFile(hist string) string {
+	if hist == "H2r" {
+		return e1.Hist(hist).Files[0].Name
+	}
+	return f1
 }
 
 func att(p simmaster.Plan) e1.Attempt {
@@ -25,13 +33,13 @@ func att(p simmaster.Plan) e1.Attempt {
 func clean() e1.Attempt { return att(simmaster.NoFault()) }
 
 func deliveriesOf(hist string) []ref.ExpTx {
-	exp, _ := ref.Expect(served(hist), ref.Position{File: f1, Pos: 4})
+	exp, _ := ref.Expect(served(hist), ref.Position{File: firstFile(hist), Pos: 4})
 	return exp
 }
 
 func served(hist string) []*ref.AEvent {
 	h := e1.Hist(hist)
-	s, err := h.Serve(f1, 4)
+	s, err := h.Serve(firstFile(hist), 4)
 	if err != nil {
 		panic(err)
 	}
@@ -59,6 +67,8 @@ func injections(hist string) map[string][]byte {
 			Rows: []ref.RowChange{{After: ref.Image{ref.VInt(ref.TLong, 1, false), ref.VVarchar(20, []byte("x")), ref.VInt(ref.TTiny, 1, true)}}}}), 1000, false)
 	}
 	return map[string][]byte{
+		// the history's own table id: unknown only while no TABLE_MAP of the dump announced it
+		"ownid":              unk(108),
 		"unknownid-a2":       unk(0xa2),
 		"unknownid-ffffff":   unk(0xffffff),
 		"unknownid-1ffffff":  unk(0x1ffffff),
@@ -174,6 +184,17 @@ func stopScenarios(hist string, full bool) []e1.Scenario {
 				a.FailAt = k
 				sc.Attempts = []e1.Attempt{a}
 				out = append(out, sc)
+				if k == 0 && fin == "eof" {
+					// the identity of the consumer's error must not matter: context errors
+					// of the consumer's OWN context, values the connection layer uses itself
+					for _, w := range []string{"canceled", "deadline", "eof", "badconn", "invalidconn"} {
+						sc := base(fmt.Sprintf("%s/%s/handler-fail@%d-%s/%s", hist, pacing, k, w, fin), hist, pacing)
+						a := att(simmaster.Plan{At: -1, Final: fin})
+						a.FailAt, a.FailWith = k, w
+						sc.Attempts = []e1.Attempt{a}
+						out = append(out, sc)
+					}
+				}
 			}
 		}
 		{
@@ -219,6 +240,17 @@ func stopScenarios(hist string, full bool) []e1.Scenario {
 			sc.Attempts = []e1.Attempt{a}
 			out = append(out, sc)
 		}
+		// (a handler that panics is NOT a stop cause of the properties: a panic is
+		// not a return, and what a Streamer is worth after one is not stated.
+		// Attempt.PanicAt exists for experiments: on the unchanged tree the stream
+		// is torn down all the same, but the position of the attempt is not kept.)
+		{
+			// the caller asks Error() before the first Stream call
+			sc := base(fmt.Sprintf("%s/%s/error-first", hist, pacing), hist, pacing)
+			sc.ErrorFirst = true
+			sc.Attempts = []e1.Attempt{att(simmaster.Plan{At: -1, Final: "eof"})}
+			out = append(out, sc)
+		}
 		// (e) cancellation while the connection is being set up
 		out = append(out, setupCancelScenarios(hist, pacing, false)...)
 		// (f) the same Streamer used again: an attempt ended by the caller's
@@ -256,7 +288,14 @@ func stopScenarios(hist string, full bool) []e1.Scenario {
 				{"fin@1", simmaster.Plan{At: 1, Kind: "fin", Final: "eof"}},
 				{"pre-err_dump", simmaster.Plan{Pre: "err_dump", At: -1, Final: "eof"}},
 				{"eof", simmaster.Plan{At: -1, Final: "eof"}},
+				// rows for the table id the FIRST attempt saw announced, in front of
+				// every table map of the second dump: what a dump knows about table
+				// ids ends with the dump
+				{"inject-ownid@2", simmaster.Plan{At: 2, Kind: "inject", Inject: inj["ownid"], Final: "eof"}},
 			} {
+				if second.name == "inject-ownid@2" && !strings.HasPrefix(f.name, "cancel-consumed") && !strings.HasPrefix(f.name, "cancel-handler_exit") {
+					continue // the second dump must have a packet 2
+				}
 				sc := base(fmt.Sprintf("%s/%s/then/%s/%s", hist, pacing, f.name, second.name), hist, pacing)
 				sc.Attempts = []e1.Attempt{f.a, att(second.p)}
 				out = append(out, sc)
@@ -334,6 +373,21 @@ func retryScenarios(hist string, full bool) []e1.Scenario {
 			a = att(simmaster.Plan{At: -1, Final: "eof"})
 			a.FailAt = k
 			add(fmt.Sprintf("handler-fail@%d/eof", k), a, nil)
+		}
+		// a handler that OWNS what it gets (overwrites every field of the delivered
+		// transaction, positions included), then a lost connection and a retry:
+		// the kept position must not be read back from the delivered object
+		for at := 2; at < n; at++ {
+			if !full && at%2 == 1 {
+				continue
+			}
+			a := att(simmaster.Plan{At: at, Kind: "fin", Final: "silent"})
+			a.HandlerMode = "scribble"
+			sc := base(fmt.Sprintf("%s/%s/retry/wipe/fin@%d", hist, pacing, at), hist, pacing)
+			c := clean()
+			c.HandlerMode = "scribble"
+			sc.Attempts = []e1.Attempt{a, c}
+			out = append(out, sc)
 		}
 		// mapper failures: the streamer is built with one mapper whose k-th call
 		// fails; the table is looked up once per attempt (new cache per Stream)
@@ -506,8 +560,10 @@ func grid(prop string, thorough bool) []Job {
 		}
 		// a file that ends with STOP (the next one is announced by the artificial
 		// ROTATE only) and transactions without events: connection lost at every packet
-		for _, hn := range []string{"H13", "H18"} {
-			// (H18: a DDL that does not commit inside a transaction)
+		for _, hn := range []string{"H13", "H18", "H2r", "H2c", "H2d"} {
+			// (H18: a DDL that does not commit inside a transaction; H2r: the new
+			// file name sorts before the old one; H2c / H2d: binlog_checksum changed
+			// at the rotation)
 			for _, pacing := range []string{"first", "lock"} {
 				for at := 2; at < len(served(hn)); at++ {
 					sc := base(fmt.Sprintf("%s/%s/retry/fin@%d", hn, pacing, at), hn, pacing)
@@ -568,7 +624,7 @@ func handshakeJobs(thorough bool) []Job {
 	// a statement the library does not classify inside a transaction (H4: SAVEPOINT),
 	// and the rotation history as a MariaDB 5.5 master with CRC32 writes it: the
 	// connection is lost at every packet, then a second attempt
-	for _, hn := range []string{"H4", "H2m", "H2q", "H18"} {
+	for _, hn := range []string{"H4", "H2m", "H2q", "H18", "H2r", "H2c", "H2d"} {
 		nh := len(served(hn))
 		for _, pacing := range []string{"first", "lock"} {
 			for at := 2; at < nh; at++ {
@@ -579,6 +635,21 @@ func handshakeJobs(thorough bool) []Job {
 				sc.ServerID = 9
 				sc.Attempts = []e1.Attempt{att(simmaster.Plan{At: at, Kind: "fin", Final: "silent"}), clean()}
 				jobs = append(jobs, Job{Sc: sc, Bound: bound})
+			}
+		}
+	}
+	// binlog_checksum changed at the rotation: two lost connections, then a clean
+	// attempt (what an attempt learnt about the format must not reach the next:
+	// the ROTATE that opens a dump is written under the master's current setting)
+	for _, hn := range []string{"H2c", "H2d"} {
+		nh := len(served(hn))
+		for a := 2; a < nh; a++ {
+			for _, b := range []int{3, 6} {
+				sc := base(fmt.Sprintf("%s/lock/retry/fin@%d/fin@%d", hn, a, b), hn, "lock")
+				sc.ServerID = 9
+				sc.Attempts = []e1.Attempt{att(simmaster.Plan{At: a, Kind: "fin", Final: "silent"}), att(simmaster.Plan{At: b, Kind: "fin", Final: "silent"}), clean()}
+				sc.DelayBound = true
+				jobs = append(jobs, Job{Sc: sc, Bound: 1})
 			}
 		}
 	}
